@@ -403,8 +403,8 @@ def run(chk):
                 "and compile(ast.parse(ast.unparse(hy_compile(p)))); parse: every tree of the C10 generator (no compile-time "
                 "heads) that the compiler accepts; hy2py: hy2py_worker on program text; non-trivial = program that logs at "
                 "least one event / tree of more than 12 characters")
-    behaviour_oracle(chk, hy, 25000 if thorough else 1800)
-    parse_oracle(chk, hy, 100000 if thorough else 6000)
+    behaviour_oracle(chk, hy, 25000 if thorough else 1400)
+    parse_oracle(chk, hy, 100000 if thorough else 4500)
     hy2py_end_to_end(chk, hy, 3000 if thorough else 200)
 
 
